@@ -221,6 +221,10 @@ def private_wild():
     from .common import TMP, build_wild, locked
     if "w" in _private and _private["w"].exists():
         return _private["w"]
+    if os.environ.get("VERIF_SYMRES_WILD"):
+        # development aid: replay against another build (a candidate fix, a mutant) without touching the shared one
+        _private["w"] = Path(os.environ["VERIF_SYMRES_WILD"])
+        return _private["w"]
     src = build_wild()
     TMP.mkdir(parents=True, exist_ok=True)
     dst = TMP / f"wild-pinned-{os.getpid()}"
